@@ -14,3 +14,8 @@ import EmuVerif.Props.C04
 #print axioms EmuVerif.Props.C04.digital_never_emulated
 #print axioms EmuVerif.Props.C04.sv_xy_asFound_counterexample
 #print axioms EmuVerif.Props.C04.impl_solver_asFound_counterexample
+#print axioms EmuVerif.Props.C04.run_kind_constant
+#print axioms EmuVerif.Props.C04.accept_kind_constant
+#print axioms EmuVerif.Props.C04.runTable_sound
+#print axioms EmuVerif.Props.C04.run_depends_only_on_cell
+#print axioms EmuVerif.Props.C04.run_kind_defaultRydberg_counterexample
